@@ -59,6 +59,7 @@ type World struct {
 	// together with the persisted header watermark it started from.
 	RestartMarks []RestartMark
 	dabt         time.Duration
+	mu           sync.Mutex
 	decCache     map[*world.StoredBlob]DecodedBlob
 }
 
@@ -90,9 +91,21 @@ func (w *World) start() {
 	w.ErrCh = make(chan error, 8)
 	m := w.P.N.M
 	w.wg.Add(3)
-	go func() { defer w.wg.Done(); m.HeaderSubmissionLoop(ctx) }()
-	go func() { defer w.wg.Done(); m.DataSubmissionLoop(ctx) }()
-	go func() { defer w.wg.Done(); m.DAIncluderLoop(ctx, w.ErrCh) }()
+	// a panic inside a loop would take the whole node down: it is reported like a loop error
+	guard := func(name string, f func()) {
+		defer w.wg.Done()
+		defer func() {
+			if r := recover(); r != nil {
+				w.mu.Lock()
+				w.Errors = append(w.Errors, fmt.Sprintf("panic in %s: %v", name, r))
+				w.mu.Unlock()
+			}
+		}()
+		f()
+	}
+	go guard("HeaderSubmissionLoop", func() { m.HeaderSubmissionLoop(ctx) })
+	go guard("DataSubmissionLoop", func() { m.DataSubmissionLoop(ctx) })
+	go guard("DAIncluderLoop", func() { m.DAIncluderLoop(ctx, w.ErrCh) })
 	synctest.Wait()
 }
 
@@ -101,7 +114,9 @@ func (w *World) drainErrs() {
 		select {
 		case e := <-w.ErrCh:
 			if e != nil {
+				w.mu.Lock()
 				w.Errors = append(w.Errors, e.Error())
+				w.mu.Unlock()
 			}
 		default:
 			return
@@ -228,6 +243,9 @@ type Block struct {
 	DataOnDA bool
 	HdrDAHs  []uint64 // DA heights at which the header blob is stored
 	DataDAHs []uint64 // DA heights at which the data blob is stored
+	// DataDAHsByCommit: DA heights of any data blob with this block's commitment (ordered transaction
+	// list only, C12) — the identification the inclusion marks use
+	DataDAHsByCommit []uint64
 }
 
 // DecodedBlob is a node-submitted blob on the DA double, decoded.
@@ -296,12 +314,17 @@ func (w *World) Blocks() ([]Block, error) {
 	}
 	hdrAt := map[string][]uint64{}
 	dataAt := map[string][]uint64{}
+	dataAtCommit := map[string][]uint64{}
 	for _, d := range w.DecodeStored() {
 		switch d.Kind {
 		case "header":
 			hdrAt[d.Key] = append(hdrAt[d.Key], d.DAHeight)
 		case "data":
-			dataAt[d.Key] = append(dataAt[d.Key], d.DAHeight)
+			// a signed-data blob belongs to the block its metadata names: two blocks with the same
+			// transaction list have the same commitment but different blobs
+			k := fmt.Sprintf("%s/%d", d.Key, dataHeight(d.Data))
+			dataAt[k] = append(dataAt[k], d.DAHeight)
+			dataAtCommit[d.Key] = append(dataAtCommit[d.Key], d.DAHeight)
 		}
 	}
 	out := []Block{}
@@ -315,9 +338,10 @@ func (w *World) Blocks() ([]Block, error) {
 			b.HdrOnDA, b.HdrDAHs = true, hs
 		}
 		if !b.Empty {
-			if hs, ok := dataAt[string(data.DACommitment())]; ok {
+			if hs, ok := dataAt[fmt.Sprintf("%s/%d", string(data.DACommitment()), i)]; ok {
 				b.DataOnDA, b.DataDAHs = true, hs
 			}
+			b.DataDAHsByCommit = dataAtCommit[string(data.DACommitment())]
 		}
 		out = append(out, b)
 	}
@@ -358,8 +382,18 @@ func (w *World) CheckC06(when string) *world.Problem {
 	for _, b := range bs {
 		byHash[string(b.Header.Hash())] = b
 		if !b.Empty {
-			byData[string(b.Data.DACommitment())] = b
+			byData[fmt.Sprintf("%s/%d", string(b.Data.DACommitment()), b.Height)] = b
 		}
+	}
+	w.mu.Lock()
+	nerr := len(w.Errors)
+	first := ""
+	if nerr > 0 {
+		first = w.Errors[0]
+	}
+	w.mu.Unlock()
+	if nerr > 0 {
+		return pr("loop-error", "%s: a background loop terminated: %s", when, first)
 	}
 	// (4) every blob the node stored decodes to exactly a committed header/data and verifies under the
 	// proposer key held by the harness
@@ -377,7 +411,7 @@ func (w *World) CheckC06(when string) *world.Problem {
 				return pr("blob-signer", "%s: header blob of block %d carries a foreign signer key", when, b.Height)
 			}
 		case "data":
-			b, ok := byData[string(d.Data.Data.DACommitment())]
+			b, ok := byData[fmt.Sprintf("%s/%d", string(d.Data.Data.DACommitment()), dataHeight(d.Data))]
 			if !ok {
 				return pr("blob-not-committed", "%s: data blob at DA height %d is not the data of a committed block", when, d.DAHeight)
 			}
@@ -505,6 +539,13 @@ func (w *World) CheckC06(when string) *world.Problem {
 	if ph > hw || pd > dw {
 		return pr("persisted-watermark-ahead", "%s: persisted watermarks (%d,%d) are ahead of the in-memory ones (%d,%d)", when, ph, pd, hw, dw)
 	}
+	// no metadata write fails in this world: at a quiescent point the persisted watermark equals the
+	// in-memory one (a value that only lives in memory would be lost by a restart). The in-memory value may
+	// be the floor initial-1 that is never written.
+	floor := initial - 1
+	if (hw > floor && ph != hw) || (dw > floor && pd != dw) {
+		return pr("watermark-not-persisted", "%s: in-memory watermarks (%d,%d) but persisted (%d,%d)", when, hw, dw, ph, pd)
+	}
 	for _, b := range bs {
 		if b.Height <= hw && !b.HdrOnDA {
 			return pr("header-watermark-unsound", "%s: header watermark is %d but the header of block %d was never accepted by the DA layer", when, hw, b.Height)
@@ -574,7 +615,8 @@ func (w *World) CheckC07(when string) *world.Problem {
 		if !b.HdrOnDA {
 			return pr("included-without-header", "%s: DA-included height is %d but the header of block %d is not on the DA layer", when, inc, b.Height)
 		}
-		if !b.Empty && !b.DataOnDA {
+		// transaction data is identified by its commitment (ordered transaction list only, C12)
+		if !b.Empty && len(b.DataDAHsByCommit) == 0 {
 			return pr("included-without-data", "%s: DA-included height is %d but the data of block %d is not on the DA layer", when, inc, b.Height)
 		}
 		// recorded DA heights name heights at which the blobs really are
@@ -590,8 +632,8 @@ func (w *World) CheckC07(when string) *world.Problem {
 			if dh != hh {
 				return pr("da-height-wrong", "%s: empty block %d records data DA height %d != header DA height %d", when, b.Height, dh, hh)
 			}
-		} else if !containsU(b.DataDAHs, dh) {
-			return pr("da-height-wrong", "%s: recorded data DA height %d of block %d, the data blob is at %v", when, dh, b.Height, b.DataDAHs)
+		} else if !containsU(b.DataDAHsByCommit, dh) {
+			return pr("da-height-wrong", "%s: recorded data DA height %d of block %d, data with its commitment is at %v", when, dh, b.Height, b.DataDAHsByCommit)
 		}
 	}
 	// SetFinal log: exactly initial.., in order, one at a time, each before the height is reported
@@ -633,4 +675,11 @@ func containsU(a []uint64, x uint64) bool {
 		}
 	}
 	return false
+}
+
+func dataHeight(sd *types.SignedData) uint64 {
+	if sd == nil || sd.Metadata == nil {
+		return 0
+	}
+	return sd.Height()
 }
